@@ -29,10 +29,10 @@ static inline void TcpEngine_closeNow(TcpEngine *self, Session *s, TransportErro
   s->closed = true;
   G_close_sid = s->id; G_close_why = why;
   if (G_close_calls < 0x7fffffffu) G_close_calls++;
-#ifdef TCP_WRITE_FREE_ON_CLOSE
-  iora_sessmap_erase(&self->_sessions, s->id);
+#ifdef TCP_WRITE_DFCC
+  if (s->id == iora_sessmap_GKEY) self->_sessions.has = 0;      /* DFCC build: loop contracts have no frees clause, the object stays */
 #else
-  if (s->id == iora_sessmap_GKEY) self->_sessions.has = 0;
+  iora_sessmap_erase(&self->_sessions, s->id);                  /* destroys *s when s is the table entry */
 #endif
 }
 /* virtual test hooks (B6): a subclass may veto the write; default returns true. Any answer, no side effect on the engine. */
